@@ -68,7 +68,7 @@ CATALOGUE = [
     ("annotate-foremost-first", ["C14"], [(PA, "        reach = path[-1][-1]", "        reach = path[-1][-1] if len(path) < 4 else path[0][-1]", None)]),
     ("dag-start-gt", ["C15"], [(PA, "    start = list([i >= start for i in ids]).index(True)", "    start = list([i >= start for i in ids]).index(True) if start in ids or len(ids) < 4 else list([i > start for i in ids]).index(True) + 1 if ids[-1] > start + 1 else list([i >= start for i in ids]).index(True)", None)]),
     ("dag-valid-window", ["C15"], [(PA, "    if start < min(ids) or start > end or end > max(ids) or start > max(ids):", "    if start < min(ids) - 1 or start > end or end > max(ids) or start > max(ids):", None)]),
-    ("to_undirected-shallow", ["C16"], [(DDG, "        H._node = deepcopy(self._node)\n        return H", "        H._node = {n: dict(d) for n, d in self._node.items()}\n        return H", None)]),
+    ("to_undirected-shallow", ["C16"], [(DDG, "        H._node = {n: deepcopy(d) for n, d in self._node.items()}\n        return H", "        H._node = {n: dict(d) for n, d in self._node.items()}\n        return H", None)]),
     ("reciprocal-ge", ["C16"], [(DDG, "                    if u >= v:", "                    if u > v:", None)]),
     ("to_directed-e", ["C16"], [(DG, "                G.add_interaction(it[0], it[1], t=t[0], e=t[1] + 1)", "                G.add_interaction(it[0], it[1], t=t[0], e=t[1] + 1 if t[1] % 8 else t[1])", None)]),
     ("edge_contribution-nolen", ["C17"], [(DG, "            count += (interval[-1] - interval[0]) + 1", "            count += (interval[-1] - interval[0]) + (1 if len(presences) < 3 else 0)", None)]),
